@@ -1,7 +1,7 @@
 (* C18 — Role expansion is the reflexive-transitive closure, sorted, without
    duplicates, terminating on every graph.  Statements only. *)
 From Coq Require Import List String Relations Sorted.
-From Rbacx Require Import Value Cond Engine EngineProofs Roles RolesProofs RolesEngine.
+From Rbacx Require Import Value Cond Engine EngineProofs Roles RolesProofs RolesClosure RolesEngine.
 Import ListNotations.
 Local Open Scope string_scope.
 
@@ -27,6 +27,45 @@ Print Assumptions c18_sorted_nodup.
 Theorem c18_empty : forall g, expand g [] = Some [].
 Proof. exact expand_empty. Qed.
 Print Assumptions c18_empty.
+
+(* ---- expand g is a closure operator on SETS of roles (RolesClosure.v) ---- *)
+
+(* extensive: every given role is in the answer (reflexive part) *)
+Theorem c18_extensive : forall g roles l, expand g roles = Some l -> incl roles l.
+Proof. exact expand_extensive. Qed.
+Print Assumptions c18_extensive.
+
+(* closed under inheritance: nothing reachable is left out (transitive part) *)
+Theorem c18_closed : forall g roles l,
+  expand g roles = Some l -> forall x y, In x l -> edge g x y -> In y l.
+Proof. exact expand_closed. Qed.
+Print Assumptions c18_closed.
+
+(* monotone in the given roles *)
+Theorem c18_monotone : forall g roles roles' l l',
+  expand g roles = Some l -> expand g roles' = Some l' -> incl roles roles' -> incl l l'.
+Proof. exact expand_monotone. Qed.
+Print Assumptions c18_monotone.
+
+(* order and repetition of the given roles do not matter *)
+Theorem c18_roles_as_set : forall g roles roles' l l',
+  expand g roles = Some l -> expand g roles' = Some l' ->
+  (forall r, In r roles <-> In r roles') -> forall x, In x l <-> In x l'.
+Proof. exact expand_roles_set. Qed.
+Print Assumptions c18_roles_as_set.
+
+(* idempotent: expanding an answer adds nothing *)
+Theorem c18_idempotent : forall g roles l l2,
+  expand g roles = Some l -> expand g l = Some l2 -> forall x, In x l2 <-> In x l.
+Proof. exact expand_idempotent. Qed.
+Print Assumptions c18_idempotent.
+
+(* the answer for two lists of roles together is the union of their answers *)
+Theorem c18_union : forall g r1 r2 l1 l2 l,
+  expand g r1 = Some l1 -> expand g r2 = Some l2 -> expand g (r1 ++ r2)%list = Some l ->
+  forall x, In x l <-> In x l1 \/ In x l2.
+Proof. exact expand_union. Qed.
+Print Assumptions c18_union.
 
 (* ---- the engine side (second sentence of the property), on the Engine model ---- *)
 
@@ -106,3 +145,13 @@ Example c18_example :
   expand [("a", ["b"; "c"]); ("b", ["a"; "d"]); ("c", ["d"])] ["a"; "zz"]
   = Some ["a"; "b"; "c"; "d"; "zz"].
 Proof. vm_compute. reflexivity. Qed.
+
+(* non-vacuity of the closure-operator statements: on the same cyclic graph the answer
+   expanded again is itself, and ["zz"; "a"; "a"] gives what ["a"; "zz"] gives *)
+Example c18_closure_example :
+  let g := [("a", ["b"; "c"]); ("b", ["a"; "d"]); ("c", ["d"])] in
+  expand g ["a"; "b"; "c"; "d"; "zz"] = Some ["a"; "b"; "c"; "d"; "zz"] /\
+  expand g ["zz"; "a"; "a"] = expand g ["a"; "zz"] /\
+  expand g ["c"] = Some ["c"; "d"] /\ expand g ["zz"] = Some ["zz"] /\
+  expand g (["c"] ++ ["zz"])%list = Some ["c"; "d"; "zz"].
+Proof. vm_compute. repeat split. Qed.
